@@ -617,9 +617,9 @@ def check(line, info):
                         for s in rs["sends"]:
                             if 0 <= s["ev"] < len(notified):
                                 nm = unhex(notified[s["ev"]])
-                                # only for a resource that existed throughout
-                                if nm in ms and lo.exists(nm) and hi.exists(nm) and \
-                                        s["value"] <= ms[nm] < (1 << 24) - 16:
+                                # also for a resource whose DELETE was interrupted: if it comes
+                                # back with observers, its counter must not have gone back
+                                if nm in ms and s["value"] <= ms[nm] < (1 << 24) - 16:
                                     bad = (nm, s["value"], ms[nm])
                                     break
                         if bad:
